@@ -13,11 +13,15 @@ struct rset {
 	int grpcnt;		/* group count */
 };
 
+/* the number of groups of a pattern, or -1 if it is not self-contained */
 static int re_groupcount(char *s)
 {
 	int n = 0;	/* number of groups */
+	int dep = 0;	/* open groups */
 	while (*s) {
-		if (s[0] == '\\' && s[1]) {	/* an escaped character */
+		if (s[0] == '\\') {		/* an escaped character */
+			if (!s[1])
+				return -1;	/* would escape the closing parenthesis */
 			s += 2;
 		} else if (s[0] == '[') {	/* a bracket expression, as in regex.c's brk_len() */
 			s++;
@@ -32,15 +36,20 @@ static int re_groupcount(char *s)
 				if (s[0])
 					s++;
 			}
-			if (s[0] == ']')
-				s++;
+			if (s[0] != ']')
+				return -1;	/* not closed */
+			s++;
 		} else {
-			if (s[0] == '(')
+			if (s[0] == '(') {
 				n++;
+				dep++;
+			}
+			if (s[0] == ')' && --dep < 0)
+				return -1;	/* would close the wrapper group */
 			s++;
 		}
 	}
-	return n;
+	return dep ? -1 : n;
 }
 
 struct rset *rset_make(int n, char **re, int flg)
@@ -49,6 +58,7 @@ struct rset *rset_make(int n, char **re, int flg)
 	struct sbuf *sb = sbuf_make();
 	int regex_flg = REG_EXTENDED | (flg & RE_ICASE ? REG_ICASE : 0);
 	int i;
+	int bad = 0;
 	memset(rs, 0, sizeof(*rs));
 	rs->grp = malloc((n + 1) * sizeof(rs->grp[0]));
 	rs->setgrpcnt = malloc((n + 1) * sizeof(rs->setgrpcnt[0]));
@@ -68,11 +78,13 @@ struct rset *rset_make(int n, char **re, int flg)
 		sbuf_chr(sb, ')');
 		rs->grp[i] = rs->grpcnt;
 		rs->setgrpcnt[i] = re_groupcount(re[i]);
+		if (rs->setgrpcnt[i] < 0)
+			bad = 1;
 		rs->grpcnt += 1 + rs->setgrpcnt[i];
 	}
 	rs->grp[n] = rs->grpcnt;
 	sbuf_chr(sb, ')');
-	if (regcomp(&rs->regex, sbuf_buf(sb), regex_flg)) {
+	if (bad || regcomp(&rs->regex, sbuf_buf(sb), regex_flg)) {
 		free(rs->grp);
 		free(rs->setgrpcnt);
 		free(rs);
